@@ -72,6 +72,9 @@ pub open spec fn has_asset(p: PoolInfo, denom: Seq<char>) -> bool {
     exists|i: int| 0 <= i < p.assets@.len() && p.assets@[i].denom@ == denom
 }
 
+/// C13: what the pre-trade pool price values an offer dx at (the "ideal" return the slippage is measured against): the exact
+/// floor(dx * y / x) (fix F12; before it the exchange rate y/x was first truncated to 18 decimals)
+pub open spec fn cp_ideal_spec(x: nat, y: nat, dx: nat) -> nat { (dx * y) / x }
 /// C03: constant-product gross output floor(Y*dx/(X+dx))
 pub open spec fn cp_gross(x: nat, y: nat, dx: nat) -> nat { (y * dx) / (x + dx) }
 
